@@ -79,6 +79,11 @@ try:
     MODULES['Keys'] = gen_keys.generate
 except ImportError:
     pass
+try:
+    import gen_year
+    MODULES['Year'] = gen_year.generate
+except ImportError:
+    pass
 
 
 def main():
